@@ -1,5 +1,6 @@
 """C20: date and time filters agree with the Gregorian calendar and invert each other."""
 import datetime
+import math
 import struct
 from values import *
 from values import from_json
@@ -52,7 +53,7 @@ def gen(ctx):
         # the modelled part alone, so that implementation and Coq model are compared
         cases.append(dict(filter="[(try gmtime catch \"E\"), (try (gmtime | mktime) catch \"E\")]", inputs=[v], kind="epoch-model", t=t))
     # fractional epochs
-    fr = [0.5, -0.5, 1.25, 1e-6, -1e-6, 1700000000.123456, -1700000000.5, 0.999999, 86399.999999, 253402207199.5, 1e300, -1e300, 2.0 ** 62, 1e15, 1.0, -0.0]
+    fr = [0.5, -0.5, 1.25, -1.5, -1.25, -86400.0, -86399.5, -0.25, -1e9 - 0.125, 1e9 + 0.125, -2.5e-7, 2.5e-7, 1e-6, -1e-6, 1700000000.123456, -1700000000.5, 0.999999, 86399.999999, 253402207199.5, 1e300, -1e300, 2.0 ** 62, 1e15, 1.0, -0.0]
     for _ in range(150 if tier == "quick" else 3000):
         fr.append(round(rng.uniform(-4e9, 4e9), rng.choice([1, 3, 6])))
     for f in fr:
@@ -150,13 +151,18 @@ def oracle(c, impl, model=None):
             bv = struct.unpack(">d", bytes.fromhex(back[1]))[0]
         elif isinstance(back, list) and back[0] in ("I", "B"):
             bv = float(int(back[1]))
-        if bv is None or abs(bv - f) > 1.5e-6:
-            return ("frac-roundtrip", "gmtime | mktime of %r gives %s (more than a microsecond away)" % (f, sx.dumps(back)))
+        # the time is kept to the nearest microsecond (half away from zero, as f64::round on f * 1e6)
+        x = f * 1e6
+        m = int(math.copysign(math.floor(abs(x) + 0.5), x))
+        ev = m / 1e6
+        tol = 2 * math.ulp(ev) if ev else 0.0
+        if bv is None or abs(bv - ev) > tol:
+            return ("frac-roundtrip", "gmtime | mktime of %r gives %s; the nearest microsecond is %r" % (f, sx.dumps(back), ev))
         if out[3] != E:
             b2 = out[3]
             v2 = struct.unpack(">d", bytes.fromhex(b2[1]))[0] if b2[0] == "F" else float(int(b2[1])) if b2[0] in ("I", "B") else None
-            if v2 is None or abs(v2 - f) > 1.5e-6:
-                return ("frac-todate", "todate | fromdate of %r gives %s" % (f, sx.dumps(b2)))
+            if v2 is None or abs(v2 - ev) > tol:
+                return ("frac-todate", "todate | fromdate of %r gives %s; the nearest microsecond is %r" % (f, sx.dumps(b2), ev))
     if k == "bad-input":
         v = c["inputs"][0]
         for i, x in enumerate(out):
